@@ -123,8 +123,8 @@ Definition is_accepted (o : oout) : bool := match o with OAccepted _ _ _ _ _ _ _
 Definition in_list (n : N) (l : list N) : bool := existsb (N.eqb n) l.
 
 (* which observations the property's theorems depend on *)
-Definition proj_calls (pid : N) : bool := in_list pid [3; 14].
-Definition proj_parts (pid : N) : bool := in_list pid [12; 15].
+Definition proj_calls (pid : N) : bool := in_list pid [3; 14; 17; 18].
+Definition proj_parts (pid : N) : bool := in_list pid [12; 15; 18].
 Definition proj_creq (pid : N) : bool := in_list pid [1; 2; 10; 11; 12; 16; 19].
 
 Definition model_creq_sts (rq : request) (cf : config) : option bytes * option bytes :=
@@ -319,7 +319,8 @@ Definition timestamp_ok (ob : observation) (x : expect) : bool :=
 Definition not_panic (ob : observation) : bool := match ob_out ob with OPanic => false | _ => true end.
 
 Definition prop_ok (pid : N) (rq : request) (cf : config) (ps : prov_spec) (ob : observation) (x : expect) : bool :=
-  xflags_ok ob x &&
+  (* C15 speaks about accepted requests only: whether a request had to be accepted is C02's business *)
+  (N.eqb pid 15 || xflags_ok ob x) &&
   (if N.eqb pid 1 then negb (is_accepted (ob_out ob)) || spec_signature_ok rq cf ps ob
    else if N.eqb pid 3 then scope_ok rq cf ob
    else if N.eqb pid 5 then negb (is_accepted (ob_out ob)) || requirements_ok rq cf
@@ -374,11 +375,15 @@ Definition run_case (c : case) : N :=
           let model_bad := negb (opt_bytes_eqb r m) in
           let spec_bad := negb (opt_bytes_eqb r (spec_path s3 p)) in
           let idem_bad := match r with Some c => negb (opt_bytes_eqb rr (Some c)) | None => false end in
-          flag model_bad 1 + flag (spec_bad || idem_bad) 2 + flag (has_plus p) 4
+          (* known-finding class D1: the path contains a literal '+' AND the implementation does exactly
+             what the model (which mirrors the '+'-as-space behaviour) predicts; any other deviation on
+             such a path is a new violation *)
+          flag model_bad 1 + flag (spec_bad || idem_bad) 2 + flag (has_plus p && negb model_bad) 4
       end
   | ValidateCase pid rq cf ps ob x =>
-      flag (model_differs pid rq cf ps ob) 1 + flag (negb (prop_ok pid rq cf ps ob x)) 2
-      + 4 * class_of pid rq
+      let md := model_differs pid rq cf ps ob in
+      flag md 1 + flag (negb (prop_ok pid rq cf ps ob x)) 2
+      + (if md then 0 else 4 * class_of pid rq)
   | QueryCase q r expected stable =>
       match r with
       | Panic => 3
